@@ -128,6 +128,7 @@ def hybrid(vals, width, style="mixed"):
 
 PTYPES = {  # name -> (parquet Type id, converted type or None)
     "int32": (1, None), "int64": (2, None), "double": (5, None), "utf8": (6, 0),
+    "boolean": (0, None), "float": (4, None),
 }
 
 
@@ -138,6 +139,13 @@ def plain(vals, ptype):
         return b"".join(struct.pack("<q", v) for v in vals)
     if ptype == "double":
         return b"".join(struct.pack("<d", v) for v in vals)
+    if ptype == "float":
+        return b"".join(struct.pack("<f", v) for v in vals)
+    if ptype == "boolean":
+        # PLAIN booleans: bit-packed, LSB first, padded to a whole byte
+        vs = [1 if v else 0 for v in vals]
+        vs += [0] * (-len(vs) % 8)
+        return _bitpack(vs, 1) if vs else b""
     if ptype == "utf8":
         out = bytearray()
         for v in vals:
@@ -373,4 +381,6 @@ def write_file(path, cols, row_groups):
 
 
 def _zero(ptype):
-    return "" if ptype == "utf8" else (0.0 if ptype == "double" else 0)
+    if ptype == "boolean":
+        return False
+    return "" if ptype == "utf8" else (0.0 if ptype in ("double", "float") else 0)
